@@ -512,6 +512,13 @@ impl<A: Subject> Runner<A> {
           msg: format!("identification bytes changed {}", when),
         });
       }
+      if self.a.data_offset() != self.cfg.data_offset() {
+        v.push(Viol {
+          flag: O_LAYOUT,
+          class: "data-offset-changed".into(),
+          msg: format!("data_offset() = {} {}, the layout says {}", self.a.data_offset(), when, self.cfg.data_offset()),
+        });
+      }
       let cap = self.a.capacity();
       let al = self.a.allocated();
       if self.a.remaining() != cap - al.min(cap) {
@@ -1238,9 +1245,16 @@ pub struct Ckpt {
   slow_paths: u32,
   first_alloc_done: bool,
   dc: u32,
+  /// state an arena keeps outside image and header: must never change
+  hidden: (usize, usize, usize, usize),
 }
 
 impl<A: Subject> Runner<A> {
+  fn hidden(&self) -> (usize, usize, usize, usize) {
+    let rg = self.a.ranges();
+    (self.a.data_offset(), self.a.capacity(), rg.header, rg.base)
+  }
+
   pub fn checkpoint(&self) -> Ckpt {
     let rg = self.a.ranges();
     Ckpt {
@@ -1254,6 +1268,7 @@ impl<A: Subject> Runner<A> {
       slow_paths: self.slow_paths,
       first_alloc_done: self.first_alloc_done,
       dc: self.dc.get(),
+      hidden: self.hidden(),
     }
   }
 
@@ -1263,7 +1278,7 @@ impl<A: Subject> Runner<A> {
   /// Trusted-base assumption (validated by `Pair::rebuild`): the mutable state of an arena is its
   /// byte image, its header and its reference count.
   pub fn restore(&mut self, c: &Ckpt) -> bool {
-    let intact = self.slots.len() >= c.nslots && self.pinned.len() >= c.npinned && !self.consumed;
+    let intact = self.slots.len() >= c.nslots && self.pinned.len() >= c.npinned && !self.consumed && self.hidden() == c.hidden;
     for l in self.slots.iter_mut().skip(if intact { c.nslots } else { 0 }) {
       if let Some(h) = l.h.as_mut() {
         h.detach_();
@@ -1301,13 +1316,16 @@ pub struct Pair {
   start: (Option<Ckpt>, Option<Ckpt>),
   pub start_viol: Vec<Viol>,
   pub rebuilds: u64,
+  /// how often the image restore did not reproduce the start state and a fresh arena was built
+  pub fresh_rebuilds: u64,
+  cfg: Cfg,
 }
 
 impl Pair {
   pub fn new(cfg: &Cfg, st: &Start, spec: &Spec) -> Pair {
     let rs = if spec.sync { Some(Runner::<rarena_allocator::sync::Arena>::new(cfg).expect("build sync arena")) } else { None };
     let ru = if spec.unsync { Some(Runner::<rarena_allocator::unsync::Arena>::new(cfg).expect("build unsync arena")) } else { None };
-    let mut p = Pair { pristine: (rs.as_ref().map(|r| r.checkpoint()), ru.as_ref().map(|r| r.checkpoint())), rs, ru, start: (None, None), start_viol: vec![], rebuilds: 0 };
+    let mut p = Pair { pristine: (rs.as_ref().map(|r| r.checkpoint()), ru.as_ref().map(|r| r.checkpoint())), rs, ru, start: (None, None), start_viol: vec![], rebuilds: 0, fresh_rebuilds: 0, cfg: *cfg };
     p.rebuild(st, spec, true);
     p
   }
@@ -1319,10 +1337,20 @@ impl Pair {
       r.consumed = true;
       r.restore(self.pristine.0.as_ref().unwrap());
       apply_start(r, st, if first { spec.oracles } else { 0 }, &mut sv);
-      let c = r.checkpoint();
+      let mut c = r.checkpoint();
       r.ckpt_slots = c.nslots;
       if let Some(old) = &self.start.0 {
-        assert!(old.image == c.image && old.header == c.header, "machinery: start state not reproducible after image restore (sync)");
+        if !(old.image == c.image && old.header == c.header && old.hidden == c.hidden) {
+          // the previous history changed state that lives outside image + header (only a modified
+          // subject does that): fall back to a freshly built arena
+          let mut fresh = Runner::<rarena_allocator::sync::Arena>::new(&self.cfg).expect("rebuild sync arena");
+          self.pristine.0 = Some(fresh.checkpoint());
+          apply_start(&mut fresh, st, 0, &mut sv);
+          c = fresh.checkpoint();
+          fresh.ckpt_slots = c.nslots;
+          *r = fresh;
+          self.fresh_rebuilds += 1;
+        }
       }
       self.start.0 = Some(c);
     }
@@ -1330,10 +1358,18 @@ impl Pair {
       r.consumed = true;
       r.restore(self.pristine.1.as_ref().unwrap());
       apply_start(r, st, if first { spec.oracles } else { 0 }, &mut sv);
-      let c = r.checkpoint();
+      let mut c = r.checkpoint();
       r.ckpt_slots = c.nslots;
       if let Some(old) = &self.start.1 {
-        assert!(old.image == c.image && old.header == c.header, "machinery: start state not reproducible after image restore (unsync)");
+        if !(old.image == c.image && old.header == c.header && old.hidden == c.hidden) {
+          let mut fresh = Runner::<rarena_allocator::unsync::Arena>::new(&self.cfg).expect("rebuild unsync arena");
+          self.pristine.1 = Some(fresh.checkpoint());
+          apply_start(&mut fresh, st, 0, &mut sv);
+          c = fresh.checkpoint();
+          fresh.ckpt_slots = c.nslots;
+          *r = fresh;
+          self.fresh_rebuilds += 1;
+        }
       }
       self.start.1 = Some(c);
     }
@@ -1516,6 +1552,9 @@ pub fn explore(run: &Run, spec: &Spec, cfgs: &[Cfg], starts: &[Start], engine_ta
       }
       loop {
         if k == 0 {
+          if pair.fresh_rebuilds > 0 {
+            run.add_num("restore_mismatch_fresh_rebuilds", pair.fresh_rebuilds);
+          }
           return; // first symbol is fixed per work item
         }
         idx[k] += 1;
@@ -1527,6 +1566,9 @@ pub fn explore(run: &Run, spec: &Spec, cfgs: &[Cfg], starts: &[Start], engine_ta
       }
       from = k;
       if run.stopped() {
+        if pair.fresh_rebuilds > 0 {
+          run.add_num("restore_mismatch_fresh_rebuilds", pair.fresh_rebuilds);
+        }
         return;
       }
     }
